@@ -141,7 +141,7 @@ func Main(t *testing.T, reg Registry) {
 		viol: map[string]*foundViolation{}, Extra: map[string]any{}, Exhaustive: true,
 	}
 	if tier == "quick" {
-		c.Budget = 200 * time.Second
+		c.Budget = 300 * time.Second
 	} else {
 		c.Budget = 40 * time.Minute
 	}
